@@ -15,7 +15,8 @@ RULE = ("a pairwise table {8 first steps that change or keep the key representat
         "chunk-factorized with per-chunk dictionaries (threshold scaled to 8 rows), pre-chunked arrow, fully monotonic}; operations drawn from all public "
         "methods (11 reductions with and without transform, cumulative, rolling, shift/diff, EMA plain/timed, head/tail/nth, groups, copy-construction, "
         "class-level call) with fresh random values and masks (none / boolean / slice / positions) at every step; every output is compared with the same "
-        "call on a freshly built object; labels and ngroups are re-checked after every step; non-trivial = history with >= 2 steps incl. >= 1 "
+        "call on a freshly built object; in 40 % of the histories (and in a family of threshold scans: 2-4 consecutive masked reductions whose windows cut whole groups away) the reused object sees ONE mask buffer and ONE value buffer refilled in place; "
+        " labels and ngroups are re-checked after every step; non-trivial = history with >= 2 steps incl. >= 1 "
         "representation-changing op; distinct = distinct (keys, history)")
 ASSUMPTIONS = ["float results compared to 1e-9 relative"]
 ALL_OPS = REDUCTIONS + ["T:" + r for r in ("size", "count", "sum", "mean", "min", "max", "first", "last", "median")] + ROW_OPS + SELECT_OPS + ["groups", "copy", "classlevel"]
